@@ -347,6 +347,46 @@ CHECKS["C12"] = {
     "assumptions": COMMON_ASSUMPTIONS,
 }
 
+CHECKS["C04"] = {
+    "sub": "c04",
+    "level": "exploration",
+    "technique": "runtime monitoring: accessors and typed decodes vs an executable model of each target over reference items; strict-prefix replay",
+    "rule": "items: all trees with <= 3 (quick) / 4 (thorough) nodes over a leaf alphabet with every head width, plus random trees (depth <= 8, non-preferred heads, indefinite containers) and shape-directed items; each item is decoded through ~80 accessors / target types on `encoding ++ suffix` (value, final position, provenance of borrowed slices compared with the model; non-matching targets must fail), and every target that accepted the item is re-run on every strict prefix (must fail with the end-of-input class); distinct = enumerated trees + distinct hashed random encodings",
+    "level_text": "The model of every accessor/type over RFC 8949 items is an executable oracle; the small-tree space is enumerated completely with all head-width assignments, which is where shape/width confusions live, and every accepted encoding is cut at every offset. Exploration is the right level: the input space is unbounded and the oracle is exact.",
+    "level_note": "Trusted: harness/vmain/src/c04.rs::model (written from the crate documentation) and refcbor. Where the statement is silent (simple() on f4..f7, tuples/unit from indefinite arrays) both an error and the model value are accepted, never another value. 'Well-formed' is read as well-formed and valid UTF-8.",
+    "assumptions": COMMON_ASSUMPTIONS,
+}
+
+CHECKS["C06"] = {
+    "sub": "c06",
+    "level": "exploration",
+    "technique": "runtime monitoring: skip() position vs reference item-boundary parser, with step and allocation monitors",
+    "rule": "all item trees with <= 4 (quick) / 5 (thorough) nodes over {definite, indefinite} x {array, map, string, bytes, tag, scalar}, random trees to depth 8 and adversarial nesting families (indefinite chains to depth 3000/10000, alternating definite/indefinite nesting, tag chains, maps with 2^k entries); each with 4 suffixes and all (or sampled, for long encodings) strict prefixes; distinct = enumerated trees + distinct hashed random encodings",
+    "level_text": "skip() is run on real encodings whose exact item boundary is known from an independent parser; the counting<->stack mode switch is targeted by enumerating all small nestings and by adversarial families; every strict prefix must fail; the step hook and the counting allocator decide the linear-work and linear-memory parts without wall-clock. The no-alloc configuration runs the same source in the C20 feature-matrix binary.",
+    "level_note": "Trusted: refcbor::parse. Text in generated items is valid UTF-8 (skip validates text). The no-alloc half of the property is exercised by the vcfg 'none' build (see C20 evidence: table c06-noalloc).",
+    "assumptions": COMMON_ASSUMPTIONS,
+}
+
+CHECKS["C11"] = {
+    "sub": "c11",
+    "level": "exploration",
+    "technique": "runtime monitoring: tokenizer output vs reference token stream; re-encoding vs reference preferred form; tokenizer termination under the step monitor",
+    "rule": "forward: item sequences (all small trees x head widths, all half patterns except signalling NaNs, all well-formed simple values, random sequences of 1-3 trees in preferred and non-preferred form) are tokenised, every token compared with the reference token, and re-encoded (must equal the preferred form); converse: random sequences of 1-64 tokens are encoded and tokenised back (value-equal); arbitrary bytes (all strings <= 2/3 bytes, head sweep, mutants): at most one token per byte and None forever after; distinct = enumerated + hashed",
+    "level_text": "Both directions of the identity are decided on real executions against the independent reference token stream and encoder; the finite sub-domains the statement names are enumerated completely.",
+    "level_note": "Trusted: refcbor::tokens / preferred. Signalling half NaNs are excluded as the property states.",
+    "assumptions": COMMON_ASSUMPTIONS,
+}
+
+CHECKS["C19"] = {
+    "sub": "c19",
+    "level": "exploration",
+    "technique": "runtime monitoring: display() into a length-limited fmt sink under panic/step/allocation monitors; exact rendering vs reference renderer",
+    "rule": "totality: all byte strings <= 2 (quick) / 3 (thorough) bytes, every head with extreme declared lengths alone and nested in 8 contexts, mutated/truncated valid items, deep nesting families; exactness: all small trees, all non-NaN half patterns, random trees; output limit 16*len+256 bytes enforced by the sink; distinct = enumerated + hashed",
+    "level_text": "The size bound and termination are decided deterministically (a sink that refuses output beyond the bound and a step budget on the decoder hook), exact rendering by comparison with an independent renderer of the documented notation.",
+    "level_note": "Trusted: refcbor::diag (floats via Rust's {:e}); '[_ ]' vs '[_]' for empty indefinite containers is undocumented and both are accepted.",
+    "assumptions": COMMON_ASSUMPTIONS,
+}
+
 
 def write_manifest():
     ids = [json.loads(l)["id"] for l in open(os.path.join(ROOT, "properties.jsonl"))]
